@@ -110,15 +110,9 @@ def run_case(c):
     if vorder == "descending":
         vols = vols[::-1].copy()
     elif vorder == "shuffled":
-        # phonopy starts the fit from the MIDDLE element of the lists (fit_to_eos); an extreme volume there is a poor start, and whether the
-        # least-squares routine still converges is a property of that routine - here a stand-in for scipy's, so nothing to conclude from. The
-        # middle element therefore stays where it is and every other point moves (sweep after round 6, seed 1)
-        mid = len(vols) // 2
-        others = np.array([i for i in range(len(vols)) if i != mid])
-        prm_ = others[np.random.default_rng(c["seed"] + 1).permutation(len(others))]
-        idx_ = np.arange(len(vols))
-        idx_[others] = prm_
-        vols = vols[idx_]
+        # (phonopy used to start the fit from the MIDDLE element of the lists: with an extreme volume there scipy's leastsq returned a spurious
+        # solution without complaint - sweep after round 6, seed 1; a genuine order dependence, repaired in /repo, see DESIGN 9.2)
+        vols = vols[np.random.default_rng(c["seed"] + 1).permutation(len(vols))]
     obs["vorder_" + vorder] = 1
     F = np.array([[eos(v, E0T[i], B0T[i], Bp, V0T[i]) for v in vols] for i in range(len(T))])  # eV, exactly an EOS in V at every T
     P = c["pressure"]
